@@ -1540,7 +1540,7 @@ def tables(repo, tier):
         f"C19/{oid}", ok, why or "shape not recognised", "syntax", definite=False))
     fo = m.functions.get("omml_to_latex")
     fp = m.functions.get(f"omml_to_latex.<locals>.{PE_NAME}")
-    if fo is not None and fp is not None:
+    if fo is not None:
         # module constants: names bound exactly once at module level, never mutated, whose initialiser reads only
         # literals, other such constants and pure builtins (comprehensions, f-strings, dict()/frozenset() ... included)
         PURE = {"frozenset", "tuple", "dict", "set", "list", "sorted", "str", "len", "range", "zip", "enumerate", "chr", "ord",
@@ -1577,12 +1577,16 @@ def tables(repo, tier):
                     allowed_globals.add(k)
                     changed = True
         allowed_globals |= {k for k in m.functions if "." not in k} | {"ET"}
+        # classes of the module, like its functions: instantiated inside the converter their state is per call; an INSTANCE kept at
+        # module level is not a constant (its initialiser calls a class: not pure) and stays a free name
+        allowed_globals |= set(getattr(m, "classes", {}) or {})
         # a module logger: log statements are not part of the function's result (PY-LOG)
         allowed_globals |= {k for k, v in m.assigns.items() if isinstance(v, ast.Call) and dotted(v.func) in
                             ("logging.getLogger", "getLogger")}
         allowed_globals |= {k for k, v in m.imports.items() if v.split(".")[0] in ("logging", "typing", "__future__")}
         locs = {a.arg for a in fo.args.args} | {n.id for n in ast.walk(fo) if isinstance(n, ast.Name) and isinstance(n.ctx, ast.Store)}
-        locs |= {a.arg for a in fp.args.args} | {fp.name}
+        if fp is not None:
+            locs |= {a.arg for a in fp.args.args} | {fp.name}
         for nf in ast.walk(fo):                     # every nested def / lambda: its name and parameters are locals of the converter
             if isinstance(nf, (ast.FunctionDef, ast.Lambda)) and nf is not fo:
                 locs |= {a.arg for a in nf.args.args + nf.args.kwonlyargs + nf.args.posonlyargs}
@@ -1715,6 +1719,8 @@ BOUNDED = ["replay grammar (round 4): every structure nested in every operand sl
            "equations in one container",
            "replay grammar (round 5): every structure with its property element and every schema child of it, m:val absent and with "
            "sample values (a bar placed below the base, m:barPr/m:pos = bot, may be rendered as an underline or as the documented overline)",
+           "replay grammar (round 6): every structure nested in its own operand slot, and all structures in rotation, 8 / 16 / 32 / 64 "
+           "levels deep (level-dependent behaviour: recursion guards, budgets); deeper nesting is not searched",
            "order of the formula lists built at the docx / pptx call sites (display equations first, document order): "
            "native comparison on the container scope of replay/C19.py::site_scope, not proved",
            "run texts emitted exactly once and in source order: checked natively by replay/C19.py on all schema-shaped "
